@@ -360,7 +360,9 @@ func DelStaleCheckpoint(cli client.Redis, checkpointName string, runId string, b
 	}
 
 	before := time.Now().Add(-1 * beforeNow).UnixNano()
+	// the newest record in the order a start uses (GetCheckpoint) : offset, then mtime
 	newest := int64(-2)
+	newestMtime := int64(0)
 	var newestDb int32
 	cpis := []*CheckpointInfo{}
 	dbs := []int32{}
@@ -369,8 +371,9 @@ func DelStaleCheckpoint(cli client.Redis, checkpointName string, runId string, b
 		if err != nil {
 			return 0, 0, err
 		}
-		if cpi.Offset > newest {
+		if cpi.Offset > newest || (cpi.Offset == newest && cpi.Mtime > newestMtime) {
 			newest = cpi.Offset
+			newestMtime = cpi.Mtime
 			newestDb = db
 		}
 		if cpi.Offset > 0 {
